@@ -1,60 +1,949 @@
-use arrow_array::{Int64Array, RecordBatch};
+//! csv-wal — correspondence + oracle for C05 (WAL recovery is exact under torn
+//! writes; sequence numbers never regress).
+//!
+//! The real `WriteAheadLog` runs in a temp directory on real record batches.
+//! Crashes are simulated by dropping the handle; a write cut at byte k is
+//! simulated by letting the real code write the whole entry / flushed file and
+//! then shortening the file so that exactly k bytes of that write remain
+//! (appends go to the end of the file, so this is the prefix-torn state).
+//! The extracted Coq model (modelrun-wal) executes the same history; payload
+//! bytes (Arrow IPC, produced here with the same StreamWriter calls) are handed
+//! to it verbatim as hex.  Observables compared token by token: sequence
+//! numbers returned by append, next_seq after open, read_entries,
+//! read_entries_after, segment files (id, length, CRC-32 of the content — the
+//! model's CRC against crc32fast), load_flushed_seq.
+//!
+//! Independently of the model, the oracle keeps the list of completely written
+//! entries and checks on the implementation alone:
+//!   * after every open, read_entries = that list minus a prefix that lies
+//!     below a bound passed to truncate_before — in order, each once, payloads
+//!     decoding to the batches that were appended;
+//!   * every sequence number handed out is above every acknowledged one, above
+//!     every completely persisted flushed mark and above the mark that is in
+//!     the flushed_seq file at that moment (for histories that respect the
+//!     caller discipline of src/ingester/mod.rs).
+use arrow::ipc::writer::StreamWriter;
+use arrow_array::{Float64Array, Int64Array, RecordBatch, StringArray};
 use arrow_schema::{DataType, Field, Schema};
 use cardinalsin::ingester::{load_flushed_seq, persist_flushed_seq, WalConfig, WalSyncMode, WriteAheadLog};
+use csv_common::{catch, ddmin, Args, Model, Report, Rng};
+use serde_json::json;
+use std::panic::AssertUnwindSafe;
+use std::path::{Path, PathBuf};
 use std::sync::Arc;
 
-fn batch(n: usize) -> RecordBatch {
-    let schema = Arc::new(Schema::new(vec![Field::new("value", DataType::Int64, false)]));
-    RecordBatch::try_new(schema, vec![Arc::new(Int64Array::from((0..n as i64).collect::<Vec<_>>()))]).unwrap()
-}
-fn cfg(dir: &std::path::Path, max: usize) -> WalConfig {
-    WalConfig { wal_dir: dir.to_path_buf(), max_segment_size: max, sync_mode: WalSyncMode::EveryWrite, enabled: true }
-}
-fn main() {
-    let rt = tokio::runtime::Builder::new_current_thread().enable_all().build().unwrap();
-    rt.block_on(async {
-        // witness 1: append after torn tail
-        let d = tempfile::tempdir().unwrap();
-        let mut w = WriteAheadLog::open(cfg(d.path(), 1 << 20)).await.unwrap();
-        let s1 = w.append(&batch(3)).await.unwrap();
-        let s2 = w.append(&batch(3)).await.unwrap();
-        drop(w);
-        let p = d.path().join("segment-000001.wal");
-        let len = std::fs::metadata(&p).unwrap().len();
-        let one = len / 2;
-        std::fs::OpenOptions::new().write(true).open(&p).unwrap().set_len(one + 10).unwrap();
-        let mut w = WriteAheadLog::open(cfg(d.path(), 1 << 20)).await.unwrap();
-        println!("w1: acked {} {}; after cut: next_seq {} entries {:?}", s1, s2, w.next_seq(), w.read_entries().unwrap().iter().map(|e| e.seq).collect::<Vec<_>>());
-        let s = w.append(&batch(3)).await.unwrap();
-        println!("w1: appended after reopen -> seq {}", s);
-        drop(w);
-        let w = WriteAheadLog::open(cfg(d.path(), 1 << 20)).await.unwrap();
-        println!("w1: second reopen: next_seq {} entries {:?}", w.next_seq(), w.read_entries().unwrap().iter().map(|e| e.seq).collect::<Vec<_>>());
-        drop(w);
+const HEADER_LEN: u64 = 22;
 
-        // witness 2: empty active segment after truncation
-        let d = tempfile::tempdir().unwrap();
-        let esz = one as usize;
-        let mut w = WriteAheadLog::open(cfg(d.path(), 2 * esz)).await.unwrap();
-        let a = w.append(&batch(3)).await.unwrap();
-        let b = w.append(&batch(3)).await.unwrap();
-        let c = w.append(&batch(3)).await.unwrap(); // rotates to segment 2
-        drop(w);
-        // crash: the write of entry 3 is lost completely (new segment exists, empty)
-        std::fs::OpenOptions::new().write(true).open(d.path().join("segment-000002.wal")).unwrap().set_len(0).unwrap();
-        println!("w2: acked-before-crash {} {} (3rd {} torn away)", a, b, c);
-        // restart as the ingester does: flushed mark 2 persisted after a flush
-        let w = WriteAheadLog::open(cfg(d.path(), 2 * esz)).await.unwrap();
-        println!("w2: reopen next_seq {}", w.next_seq());
-        persist_flushed_seq(d.path(), 2).unwrap();
-        drop(w);
-        let mut w = WriteAheadLog::open(cfg(d.path(), 2 * esz)).await.unwrap();
-        let f = load_flushed_seq(d.path()).unwrap();
-        w.truncate_before(f + 1).await.unwrap();
-        println!("w2: restart, flushed {}, next_seq {}, files {:?}", f, w.next_seq(), std::fs::read_dir(d.path()).unwrap().map(|e| e.unwrap().file_name()).collect::<Vec<_>>());
-        drop(w);
-        let mut w = WriteAheadLog::open(cfg(d.path(), 2 * esz)).await.unwrap();
-        let s = w.append(&batch(3)).await.unwrap();
-        println!("w2: crash again; reopen next_seq was {}, new append got seq {} (flushed mark {}), read_entries_after(flushed) = {:?}", s, s, f, w.read_entries_after(f).unwrap().iter().map(|e| e.seq).collect::<Vec<_>>());
+// ------------------------------------------------------------- payloads ----
+struct Pool {
+    batches: Vec<RecordBatch>,
+    payloads: Vec<Vec<u8>>,
+}
+
+fn ipc_bytes(batch: &RecordBatch) -> Vec<u8> {
+    let mut buffer = Vec::new();
+    let schema = batch.schema();
+    let mut writer = StreamWriter::try_new(&mut buffer, &schema).unwrap();
+    writer.write(batch).unwrap();
+    writer.finish().unwrap();
+    drop(writer);
+    buffer
+}
+
+fn make_pool() -> Pool {
+    let s1 = Arc::new(Schema::new(vec![Field::new("value", DataType::Int64, false)]));
+    let s2 = Arc::new(Schema::new(vec![
+        Field::new("timestamp", DataType::Int64, false),
+        Field::new("metric_name", DataType::Utf8, false),
+        Field::new("value_f64", DataType::Float64, true),
+    ]));
+    let b_int = |n: i64| RecordBatch::try_new(s1.clone(), vec![Arc::new(Int64Array::from((0..n).collect::<Vec<_>>()))]).unwrap();
+    let b_met = |n: i64, name: &str| {
+        RecordBatch::try_new(
+            s2.clone(),
+            vec![
+                Arc::new(Int64Array::from((0..n).map(|i| 1_700_000_000_000_000_000 + i).collect::<Vec<_>>())),
+                Arc::new(StringArray::from((0..n).map(|_| name.to_string()).collect::<Vec<_>>())),
+                Arc::new(Float64Array::from((0..n).map(|i| if i % 3 == 2 { None } else { Some(i as f64 * 0.5) }).collect::<Vec<_>>())),
+            ],
+        )
+        .unwrap()
+    };
+    let batches = vec![b_int(1), b_int(3), b_int(40), b_met(1, "cpu"), b_met(5, "memory_usage_bytes"), b_int(0)];
+    let payloads = batches.iter().map(ipc_bytes).collect();
+    Pool { batches, payloads }
+}
+
+fn hex(b: &[u8]) -> String {
+    let mut s = String::with_capacity(b.len() * 2);
+    for x in b {
+        s.push_str(&format!("{:02x}", x));
+    }
+    s
+}
+
+// ------------------------------------------------------------------ ops ----
+#[derive(Clone, Debug, PartialEq)]
+enum Op {
+    O(u64),
+    A(usize),
+    X(usize, u64),
+    T(u64),
+    F(u64),
+    G(u64, u64),
+    C,
+    K(u64),
+    B(u64, u8),
+    R,
+    E(u64),
+    N,
+    S,
+    L,
+}
+
+fn enc_op(o: &Op) -> String {
+    match o {
+        Op::O(m) => format!("O {}", m),
+        Op::A(i) => format!("A {}", i),
+        Op::X(i, k) => format!("X {} {}", i, k),
+        Op::T(b) => format!("T {}", b),
+        Op::F(x) => format!("F {}", x),
+        Op::G(x, k) => format!("G {} {}", x, k),
+        Op::C => "C".into(),
+        Op::K(n) => format!("K {}", n),
+        Op::B(o, v) => format!("B {} {}", o, v),
+        Op::R => "R".into(),
+        Op::E(a) => format!("E {}", a),
+        Op::N => "N".into(),
+        Op::S => "S".into(),
+        Op::L => "L".into(),
+    }
+}
+
+fn encode_ops(ops: &[Op]) -> String {
+    ops.iter().map(enc_op).collect::<Vec<_>>().join(";")
+}
+
+fn decode_ops(s: &str) -> Vec<Op> {
+    s.split(';')
+        .filter(|t| !t.trim().is_empty())
+        .filter_map(|t| {
+            let f: Vec<&str> = t.trim().split(' ').collect();
+            let p = |i: usize| f[i].parse::<u64>().unwrap();
+            Some(match f[0] {
+                "O" => Op::O(p(1)),
+                "A" => Op::A(p(1) as usize),
+                "X" => Op::X(p(1) as usize, p(2)),
+                "T" => Op::T(p(1)),
+                "F" => Op::F(p(1)),
+                "G" => Op::G(p(1), p(2)),
+                "C" => Op::C,
+                "K" => Op::K(p(1)),
+                "B" => Op::B(p(1), p(2) as u8),
+                "R" => Op::R,
+                "E" => Op::E(p(1)),
+                "N" => Op::N,
+                "S" => Op::S,
+                "L" => Op::L,
+                _ => return None, // P tokens
+            })
+        })
+        .collect()
+}
+
+/// the line given to the model: payload table, then the operations
+fn model_line(pool: &Pool, ops: &[Op]) -> String {
+    let mut toks: Vec<String> = pool.payloads.iter().map(|p| format!("P {}", hex(p))).collect();
+    toks.extend(ops.iter().map(enc_op));
+    toks.join(";")
+}
+
+// ------------------------------------------------- implementation runner ----
+fn seg_files(dir: &Path) -> Vec<(u64, PathBuf)> {
+    let mut v = Vec::new();
+    if let Ok(rd) = std::fs::read_dir(dir) {
+        for e in rd.flatten() {
+            let name = e.file_name().to_string_lossy().to_string();
+            if let Some(rest) = name.strip_prefix("segment-") {
+                if let Some(id) = rest.strip_suffix(".wal") {
+                    if let Ok(id) = id.parse::<u64>() {
+                        v.push((id, e.path()));
+                    }
+                }
+            }
+        }
+    }
+    v.sort();
+    v
+}
+
+fn flushed_on_disk(dir: &Path) -> u64 {
+    // what the file says, read here without the code under test
+    match std::fs::read(dir.join("flushed_seq")) {
+        Ok(b) if b.len() == 8 => u64::from_le_bytes(b.try_into().unwrap()),
+        _ => 0,
+    }
+}
+
+#[derive(Clone)]
+struct RefEntry {
+    seq: u64,
+    pidx: usize,
+    size: u64,
+}
+
+/// What the oracle knows without asking the model.
+struct Oracle {
+    /// completely written entries that may still be in the log, oldest first;
+    /// the bool says "is in the newest segment file"
+    entries: Vec<(RefEntry, bool)>,
+    newest_seg: Option<u64>,
+    max_bound: u64,
+    max_acked: u64,
+    max_mark: u64,
+    disciplined: bool,
+    /// false once a fault outside the crash model hit a byte the format does
+    /// not protect (sequence number / length field): the recovered list is then
+    /// only compared with the model
+    exact: bool,
+    failures: Vec<String>,
+}
+
+impl Oracle {
+    fn new() -> Self {
+        Oracle { entries: Vec::new(), newest_seg: None, max_bound: 0, max_acked: 0, max_mark: 0, disciplined: true, exact: true, failures: Vec::new() }
+    }
+    fn sync_newest(&mut self, dir: &Path) {
+        let newest = seg_files(dir).last().map(|x| x.0);
+        if newest != self.newest_seg {
+            for e in self.entries.iter_mut() {
+                e.1 = false;
+            }
+            self.newest_seg = newest;
+        }
+    }
+    /// newest complete entry that cannot have been truncated away
+    fn sure_top(&self) -> Option<u64> {
+        self.entries.last().map(|e| e.0.seq).filter(|s| *s >= self.max_bound)
+    }
+}
+
+struct Impl<'a> {
+    rt: &'a tokio::runtime::Runtime,
+    pool: &'a Pool,
+    dir: tempfile::TempDir,
+    wal: Option<WriteAheadLog>,
+    or: Oracle,
+}
+
+fn show_entries_impl(v: &[(u64, u8, Vec<u8>)]) -> String {
+    v.iter()
+        .map(|(s, f, p)| format!("{}/{}/{}/{}", s, f, p.len(), crc32fast::hash(p)))
+        .collect::<Vec<_>>()
+        .join(",")
+}
+
+impl<'a> Impl<'a> {
+    fn new(rt: &'a tokio::runtime::Runtime, pool: &'a Pool) -> Self {
+        let dir = tempfile::Builder::new()
+            .prefix("csv-wal")
+            .tempdir_in("/dev/shm")
+            .or_else(|_| tempfile::tempdir())
+            .expect("temp dir");
+        Impl { rt, pool, dir, wal: None, or: Oracle::new() }
+    }
+    fn cfg(&self, max: u64) -> WalConfig {
+        WalConfig { wal_dir: self.dir.path().to_path_buf(), max_segment_size: max as usize, sync_mode: WalSyncMode::EveryWrite, enabled: true }
+    }
+    fn read_all(&self) -> Option<Vec<(u64, u8, Vec<u8>)>> {
+        let w = self.wal.as_ref()?;
+        match w.read_entries() {
+            Ok(es) => Some(es.into_iter().map(|e| (e.seq, e.flags, e.payload)).collect()),
+            Err(_) => None,
+        }
+    }
+
+    /// oracle: what a fresh handle reads must be the completely written
+    /// entries, minus a prefix below a truncation bound
+    fn check_recovery(&mut self, at: usize) {
+        if !self.or.exact {
+            return;
+        }
+        let Some(w) = self.wal.as_ref() else { return };
+        let got = match w.read_entries() {
+            Ok(g) => g,
+            Err(e) => {
+                self.or.failures.push(format!("op {}: read_entries failed after open: {}", at, e));
+                return;
+            }
+        };
+        let refs = &self.or.entries;
+        if got.len() > refs.len() {
+            self.or.failures.push(format!(
+                "op {}: recovered {} entries {:?} but only {} were ever written completely",
+                at, got.len(), got.iter().map(|e| e.seq).collect::<Vec<_>>(), refs.len()));
+            return;
+        }
+        let n = refs.len() - got.len();
+        for (g, (r, _)) in got.iter().zip(refs[n..].iter()) {
+            if g.seq != r.seq || g.payload != self.pool.payloads[r.pidx] {
+                self.or.failures.push(format!(
+                    "op {}: recovered entries {:?} are not a suffix of the completely written entries {:?} (partial, corrupted, duplicated or reordered entry)",
+                    at, got.iter().map(|e| e.seq).collect::<Vec<_>>(), refs.iter().map(|e| e.0.seq).collect::<Vec<_>>()));
+                return;
+            }
+            match g.batches() {
+                Ok(bs) if bs.len() == 1 && bs[0] == self.pool.batches[r.pidx] => {}
+                _ => {
+                    self.or.failures.push(format!("op {}: recovered entry {} does not decode to the batch that was appended", at, g.seq));
+                    return;
+                }
+            }
+        }
+        for (r, _) in refs[..n].iter() {
+            if r.seq >= self.or.max_bound {
+                self.or.failures.push(format!(
+                    "op {}: completely written entry seq {} is missing after reopen (recovered {:?}; largest truncation bound so far {})",
+                    at, r.seq, got.iter().map(|e| e.seq).collect::<Vec<_>>(), self.or.max_bound));
+                return;
+            }
+        }
+        // what was legitimately removed stays removed
+        self.or.entries.drain(..n);
+    }
+
+    fn check_new_seq(&mut self, at: usize, s: u64, fl_before: u64) {
+        if !self.or.disciplined {
+            return;
+        }
+        let floor = self.or.max_acked.max(self.or.max_mark).max(fl_before);
+        if s <= floor {
+            self.or.failures.push(format!(
+                "op {}: append was given sequence number {} although {} was already acknowledged / recorded as flushed (acked {}, persisted mark {}, mark on disk {})",
+                at, s, floor, self.or.max_acked, self.or.max_mark, fl_before));
+        }
+        if let Some((last, _)) = self.or.entries.last() {
+            if s <= last.seq {
+                self.or.failures.push(format!("op {}: sequence number {} is not above the completely written entry {}", at, s, last.seq));
+            }
+        }
+    }
+
+    fn newest_seg_path(&self) -> Option<PathBuf> {
+        seg_files(self.dir.path()).last().map(|x| x.1.clone())
+    }
+
+    fn exec(&mut self, at: usize, op: &Op) -> String {
+        let dirp = self.dir.path().to_path_buf();
+        match op {
+            Op::O(max) => {
+                self.wal = None;
+                let cfg = self.cfg(*max);
+                let rt = self.rt;
+                let r = catch(AssertUnwindSafe(|| rt.block_on(WriteAheadLog::open(cfg))));
+                match r {
+                    Ok(Ok(w)) => {
+                        let next = w.next_seq();
+                        self.wal = Some(w);
+                        self.or.sync_newest(&dirp);
+                        self.check_recovery(at);
+                        if self.or.disciplined {
+                            let floor = self.or.max_acked.max(self.or.max_mark).max(flushed_on_disk(&dirp));
+                            if next <= floor {
+                                self.or.failures.push(format!("op {}: next_seq after open is {} although {} was already acknowledged / recorded as flushed", at, next, floor));
+                            }
+                        }
+                        format!("o:{}", next)
+                    }
+                    Ok(Err(e)) => format!("o:ERR {}", e),
+                    Err(_) => "o:PANIC".into(),
+                }
+            }
+            Op::A(i) | Op::X(i, _) => {
+                let tag = if matches!(op, Op::A(_)) { "a" } else { "x" };
+                let Some(mut w) = self.wal.take() else { return format!("{}:-", tag) };
+                let fl_before = flushed_on_disk(&dirp);
+                let batch = self.pool.batches[*i].clone();
+                let rt = self.rt;
+                let r = catch(AssertUnwindSafe(|| rt.block_on(w.append(&batch))));
+                let full = HEADER_LEN + self.pool.payloads[*i].len() as u64;
+                let out = match r {
+                    Ok(Ok(seq)) => {
+                        self.check_new_seq(at, seq, fl_before);
+                        self.or.sync_newest(&dirp);
+                        let complete = match op {
+                            Op::X(_, keep) => {
+                                // the write is cut: only `keep` bytes of it stay in the file
+                                let keep = (*keep).min(full);
+                                if let Some(p) = self.newest_seg_path() {
+                                    let len = std::fs::metadata(&p).map(|m| m.len()).unwrap_or(0);
+                                    let f = std::fs::OpenOptions::new().write(true).open(&p).unwrap();
+                                    f.set_len(len.saturating_sub(full - keep)).unwrap();
+                                }
+                                keep == full
+                            }
+                            _ => true,
+                        };
+                        if complete {
+                            self.or.entries.push((RefEntry { seq, pidx: *i, size: full }, true));
+                        }
+                        if matches!(op, Op::A(_)) {
+                            self.or.max_acked = self.or.max_acked.max(seq);
+                        }
+                        format!("{}:{}", tag, seq)
+                    }
+                    Ok(Err(e)) => format!("{}:ERR {}", tag, e),
+                    Err(_) => format!("{}:PANIC", tag),
+                };
+                if matches!(op, Op::A(_)) {
+                    self.wal = Some(w);
+                }
+                out
+            }
+            Op::T(b) => {
+                let fl = flushed_on_disk(&dirp);
+                let ok = self.or.sure_top().map_or(false, |t| *b <= t) || *b <= fl.saturating_add(1);
+                if !ok {
+                    self.or.disciplined = false;
+                }
+                let Some(w) = self.wal.as_mut() else { return "t:-".into() };
+                self.or.max_bound = self.or.max_bound.max(*b);
+                let rt = self.rt;
+                match catch(AssertUnwindSafe(|| rt.block_on(w.truncate_before(*b)))) {
+                    Ok(Ok(())) => "t".into(),
+                    Ok(Err(e)) => format!("t:ERR {}", e),
+                    Err(_) => "t:PANIC".into(),
+                }
+            }
+            Op::F(x) | Op::G(x, _) => {
+                let fl = flushed_on_disk(&dirp);
+                let ok = fl <= *x && self.or.sure_top().map_or(*x == 0, |t| *x <= t);
+                if !ok {
+                    self.or.disciplined = false;
+                }
+                let r = persist_flushed_seq(&dirp, *x);
+                match op {
+                    Op::G(_, keep) => {
+                        let keep = (*keep).min(8);
+                        let f = std::fs::OpenOptions::new().write(true).open(dirp.join("flushed_seq")).unwrap();
+                        f.set_len(keep).unwrap();
+                        self.wal = None;
+                        if keep == 8 {
+                            self.or.max_mark = self.or.max_mark.max(*x);
+                        }
+                        "g".into()
+                    }
+                    _ => {
+                        self.or.max_mark = self.or.max_mark.max(*x);
+                        if r.is_ok() { "f".into() } else { "f:ERR".into() }
+                    }
+                }
+            }
+            Op::C => {
+                self.wal = None;
+                "c".into()
+            }
+            Op::K(n) => {
+                self.wal = None;
+                self.or.disciplined = false;
+                self.or.sync_newest(&dirp);
+                if let Some(p) = self.newest_seg_path() {
+                    let len = std::fs::metadata(&p).map(|m| m.len()).unwrap_or(0);
+                    if *n < len {
+                        std::fs::OpenOptions::new().write(true).open(&p).unwrap().set_len(*n).unwrap();
+                        self.drop_newest_from(*n);
+                    }
+                }
+                "k".into()
+            }
+            Op::B(off, v) => {
+                self.wal = None;
+                self.or.disciplined = false;
+                self.or.sync_newest(&dirp);
+                if let Some(p) = self.newest_seg_path() {
+                    let mut bytes = std::fs::read(&p).unwrap_or_default();
+                    if (*off as usize) < bytes.len() {
+                        bytes[*off as usize] ^= *v;
+                        std::fs::write(&p, &bytes).unwrap();
+                        // which field of which complete entry was hit?
+                        let mut start = 0u64;
+                        let mut hit: Option<u64> = None;
+                        for (e, newest) in self.or.entries.iter() {
+                            if *newest {
+                                if *off >= start && *off < start + e.size {
+                                    hit = Some(*off - start);
+                                }
+                                start += e.size;
+                            }
+                        }
+                        match hit {
+                            // magic, version, compression flag, stored CRC, payload: the entry must vanish
+                            Some(r) if r < 5 || (r == 5 && *v & 1 == 1) || r >= 18 => self.drop_newest_from(*off),
+                            // sequence number, length, other flag bits: not protected by the format
+                            Some(_) => self.or.exact = false,
+                            None => {}
+                        }
+                    }
+                }
+                "b".into()
+            }
+            Op::R => {
+                if self.wal.is_none() {
+                    return "r:-".into();
+                }
+                match self.read_all() {
+                    Some(v) => format!("r:{}", show_entries_impl(&v)),
+                    None => "r:ERR".into(),
+                }
+            }
+            Op::E(a) => match self.wal.as_ref() {
+                None => "e:-".into(),
+                Some(w) => match w.read_entries_after(*a) {
+                    Ok(es) => {
+                        let v: Vec<(u64, u8, Vec<u8>)> = es.into_iter().map(|e| (e.seq, e.flags, e.payload)).collect();
+                        if v.iter().any(|e| e.0 <= *a) {
+                            self.or.failures.push(format!("op {}: read_entries_after({}) returned an entry at or below the bound", at, a));
+                        }
+                        format!("e:{}", show_entries_impl(&v))
+                    }
+                    Err(_) => "e:ERR".into(),
+                },
+            },
+            Op::N => match self.wal.as_ref() {
+                Some(w) => format!("n:{}", w.next_seq()),
+                None => "n:-".into(),
+            },
+            Op::S => {
+                let v: Vec<String> = seg_files(&dirp)
+                    .iter()
+                    .map(|(id, p)| {
+                        let b = std::fs::read(p).unwrap_or_default();
+                        format!("{}/{}/{}", id, b.len(), crc32fast::hash(&b))
+                    })
+                    .collect();
+                format!("s:{}", v.join(","))
+            }
+            Op::L => match load_flushed_seq(&dirp) {
+                Ok(v) => format!("l:{}", v),
+                Err(_) => "l:ERR".into(),
+            },
+        }
+    }
+
+    /// reference update for the two faults outside the crash model: complete
+    /// entries of the newest segment file that end at or before byte `pos`
+    /// survive; the entry that contains `pos` and everything behind it is gone
+    fn drop_newest_from(&mut self, pos: u64) {
+        let mut end = 0u64;
+        let mut keep = Vec::new();
+        let mut cutting = false;
+        for (e, newest) in self.or.entries.iter() {
+            if !*newest {
+                keep.push((e.clone(), false));
+                continue;
+            }
+            end += e.size;
+            if !cutting && end <= pos {
+                keep.push((e.clone(), true));
+            } else {
+                cutting = true;
+            }
+        }
+        self.or.entries = keep;
+    }
+}
+
+/// Runs one history on the real code; returns the canonical output line and
+/// the oracle failures.
+fn run_impl(rt: &tokio::runtime::Runtime, pool: &Pool, ops: &[Op]) -> (String, Vec<String>, bool) {
+    let mut im = Impl::new(rt, pool);
+    let mut toks: Vec<String> = pool.payloads.iter().map(|_| "p".to_string()).collect();
+    for (i, op) in ops.iter().enumerate() {
+        toks.push(im.exec(i, op));
+    }
+    let disciplined = im.or.disciplined;
+    (toks.join(";"), std::mem::take(&mut im.or.failures), disciplined)
+}
+
+/// the harness's own verdict "this op respects the caller discipline", per
+/// state-changing op, in the format of the model's `?` answer ("." for
+/// observations); used to cross-check the classifier against op_ok
+fn discipline_flags(rt: &tokio::runtime::Runtime, pool: &Pool, ops: &[Op]) -> Vec<Option<bool>> {
+    let mut im = Impl::new(rt, pool);
+    let mut v = Vec::new();
+    for (i, op) in ops.iter().enumerate() {
+        let before = im.or.disciplined;
+        im.or.disciplined = true;
+        im.exec(i, op);
+        let this = im.or.disciplined;
+        im.or.disciplined = before && this;
+        v.push(match op {
+            Op::R | Op::E(_) | Op::N | Op::S | Op::L => None,
+            _ => Some(this),
+        });
+    }
+    v
+}
+
+// ------------------------------------------------------------ generator ----
+fn entry_size(pool: &Pool, i: usize) -> u64 {
+    HEADER_LEN + pool.payloads[i].len() as u64
+}
+
+fn gen_keep(rng: &mut Rng, report: &mut Report, full: u64, rotates_hint: bool) -> u64 {
+    let class = rng.below(6);
+    let k = match class {
+        0 => 0,
+        1 => rng.range_i64(1, HEADER_LEN as i64 - 1) as u64,
+        2 => HEADER_LEN,
+        3 => rng.range_i64(HEADER_LEN as i64 + 1, full as i64 - 1) as u64,
+        4 => full - 1,
+        _ => full,
+    };
+    report.bump(match k {
+        0 if rotates_hint => "cut.nothing_written_maybe_new_empty_segment",
+        0 => "cut.nothing_written",
+        x if x < HEADER_LEN => "cut.inside_header",
+        x if x == HEADER_LEN => "cut.header_payload_seam",
+        x if x < full => "cut.inside_payload",
+        _ => "cut.complete_but_unacknowledged",
     });
+    k
+}
+
+/// ingester-shaped random history with crash points of every class
+fn gen_case(rng: &mut Rng, pool: &Pool, report: &mut Report) -> Vec<Op> {
+    let np = pool.payloads.len() - 1; // the zero-row batch is used rarely
+    let e0 = entry_size(pool, 1);
+    let max = match rng.below(6) {
+        0 => 0,                                   // never rotate
+        1 => 1,                                   // every append rotates
+        2 => e0 + 1,                              // about one entry per segment
+        3 => 2 * e0 + rng.below(40),              // about two
+        4 => 3 * e0 + rng.below(600),
+        _ => 1 << 20,
+    };
+    report.bump(&format!("segment_limit.{}", match max { 0 => "unlimited", 1 => "one_byte", m if m < 2 * e0 => "one_entry", m if m < (1 << 20) => "few_entries", _ => "large" }));
+    let mut ops = vec![Op::O(max)];
+    let nops = rng.range_usize(4, 22);
+    let mut up = true;
+    let mut last_seq_guess: u64 = 0; // what an ingester would hold in last_wal_seq
+    let mut fl_guess: u64 = 0;
+    let mut crash_rounds = 0;
+    for _ in 0..nops {
+        if !up {
+            // restart the way ensure_wal does, sometimes crash again immediately
+            ops.push(Op::L);
+            ops.push(Op::O(max));
+            ops.push(Op::N);
+            if rng.chance(2, 3) {
+                ops.push(Op::E(fl_guess));
+            } else {
+                ops.push(Op::R);
+            }
+            if fl_guess > 0 && rng.chance(3, 4) {
+                ops.push(Op::T(fl_guess + 1));
+            }
+            up = true;
+            crash_rounds += 1;
+            if rng.chance(1, 5) {
+                ops.push(Op::C);
+                up = false;
+                report.bump("crash.immediately_after_reopen");
+            }
+            continue;
+        }
+        let r = rng.below(100);
+        if r < 42 {
+            let i = if rng.chance(1, 25) { np } else { rng.below(np as u64) as usize };
+            ops.push(Op::A(i));
+            last_seq_guess += 1;
+            report.bump("op.append");
+        } else if r < 56 {
+            let i = rng.below(np as u64) as usize;
+            let full = entry_size(pool, i);
+            let keep = gen_keep(rng, report, full, max > 0 && max < 3 * e0);
+            ops.push(Op::X(i, keep));
+            if keep == full {
+                last_seq_guess += 1;
+            }
+            up = false;
+            report.bump("op.crash_inside_append");
+        } else if r < 66 {
+            // the tail of flush_batches
+            if last_seq_guess > 0 {
+                ops.push(Op::T(last_seq_guess));
+                ops.push(Op::F(last_seq_guess));
+                fl_guess = last_seq_guess;
+                report.bump("op.flush");
+            }
+        } else if r < 72 {
+            if last_seq_guess > 0 {
+                ops.push(Op::T(last_seq_guess));
+                let keep = rng.below(9);
+                ops.push(Op::G(last_seq_guess, keep));
+                report.bump(if keep == 8 { "flushed_file.new_then_crash" } else if keep == 0 { "flushed_file.torn_empty" } else { "flushed_file.torn_partial" });
+                if keep == 8 {
+                    fl_guess = last_seq_guess;
+                } else {
+                    fl_guess = 0;
+                }
+                up = false;
+            }
+        } else if r < 77 {
+            // crash between truncate and persist: the mark on disk stays old
+            if last_seq_guess > 0 {
+                ops.push(Op::T(last_seq_guess));
+                report.bump("flushed_file.old_crash_before_persist");
+            }
+            ops.push(Op::C);
+            up = false;
+        } else if r < 82 {
+            ops.push(Op::C);
+            up = false;
+            report.bump("op.crash_at_boundary");
+        } else if r < 85 {
+            // outside the caller discipline: arbitrary bound / mark
+            if rng.chance(1, 2) {
+                ops.push(Op::T(rng.below(last_seq_guess + 4)));
+            } else {
+                ops.push(Op::F(rng.below(last_seq_guess + 4)));
+            }
+            report.bump("op.wild_truncate_or_persist");
+        } else if r < 88 {
+            // faults outside the crash model (correspondence of the reader's other branches)
+            if rng.chance(1, 2) {
+                ops.push(Op::K(rng.below(3 * e0)));
+                report.bump("fault.cut_anywhere");
+            } else {
+                let (off, v) = gen_flip(rng, pool, report);
+                ops.push(Op::B(off, v));
+            }
+            up = false;
+        } else if r < 92 {
+            ops.push(Op::R);
+        } else if r < 95 {
+            ops.push(Op::E(rng.below(last_seq_guess + 2)));
+        } else if r < 97 {
+            ops.push(Op::S);
+        } else {
+            ops.push(Op::N);
+        }
+    }
+    if !up {
+        crash_rounds += 1;
+    }
+    report.bump(&format!("crash_reopen_rounds.{}", crash_rounds.min(6)));
+    // always finish with a reopening and a full observation
+    ops.push(Op::C);
+    ops.push(Op::O(max));
+    ops.push(Op::N);
+    ops.push(Op::R);
+    ops.push(Op::S);
+    ops.push(Op::L);
+    ops
+}
+
+/// a byte the format protects: magic, version, flag bit 0, stored CRC, payload
+fn gen_flip(rng: &mut Rng, pool: &Pool, report: &mut Report) -> (u64, u8) {
+    let e = entry_size(pool, 1);
+    let base = rng.below(2) * e; // first or second entry if they have the common size
+    let any = 1 + rng.below(255) as u8;
+    match rng.below(5) {
+        0 => { report.bump("fault.flip_magic"); (base + rng.below(4), any) }
+        1 => { report.bump("fault.flip_version"); (base + 4, any) }
+        2 => { report.bump("fault.flip_compressed_flag"); (base + 5, any | 1) }
+        3 => { report.bump("fault.flip_stored_crc"); (base + 18 + rng.below(4), any) }
+        _ => { report.bump("fault.flip_payload_byte"); (base + HEADER_LEN + rng.below(e - HEADER_LEN), any) }
+    }
+}
+
+/// every cut offset of the last write, for several layouts
+fn sweep_cases(pool: &Pool, report: &mut Report, thorough: bool) -> Vec<(String, Vec<Op>)> {
+    let mut v = Vec::new();
+    let mut layouts: Vec<(u64, Vec<usize>, usize, usize)> = vec![
+        // (segment limit, entries before, entry that is cut, entry appended after the reopening)
+        (1 << 20, vec![1, 3], 1, 0),                       // one segment
+        (2 * entry_size(pool, 1) + 1, vec![1, 1], 1, 1),   // the cut write rotates into a new segment
+    ];
+    if thorough {
+        layouts.push((1 << 20, vec![], 4, 1));
+        layouts.push((1, vec![0, 0], 3, 0));
+        layouts.push((0, vec![2, 4, 0], 2, 2));
+    }
+    for (max, before, cut, after) in layouts {
+        let full = entry_size(pool, cut);
+        for keep in 0..=full {
+            let mut ops = vec![Op::O(max)];
+            ops.extend(before.iter().map(|i| Op::A(*i)));
+            ops.push(Op::X(cut, keep));
+            ops.extend([Op::O(max), Op::N, Op::R, Op::S, Op::A(after), Op::C, Op::O(max), Op::R, Op::N, Op::A(after), Op::C, Op::O(max), Op::R, Op::S]);
+            report.bump(match keep {
+                0 => "sweep.cut.nothing_written",
+                k if k < HEADER_LEN => "sweep.cut.inside_header",
+                k if k == HEADER_LEN => "sweep.cut.header_payload_seam",
+                k if k < full => "sweep.cut.inside_payload",
+                _ => "sweep.cut.complete_but_unacknowledged",
+            });
+            v.push(("sweep-last-write".to_string(), ops));
+        }
+    }
+    // every state of the flushed-sequence file, with and without an empty active segment
+    for keep in 0..=8u64 {
+        let e = entry_size(pool, 1);
+        for empty_tail in [false, true] {
+            let max = 2 * e + 1;
+            let mut ops = vec![Op::O(max), Op::A(1), Op::A(1)];
+            if empty_tail {
+                ops.push(Op::X(1, 0)); // rotates, nothing written
+                ops.push(Op::O(max));
+            }
+            ops.extend([Op::T(2), Op::F(2), Op::C, Op::L, Op::O(max), Op::T(3), Op::S, Op::A(0)]);
+            // seq 3 acknowledged; flush it, the flushed-file write is cut
+            ops.extend([Op::T(3), Op::G(3, keep), Op::L, Op::O(max), Op::N, Op::R, Op::A(0), Op::C, Op::O(max), Op::R, Op::N, Op::S]);
+            report.bump(if keep == 8 { "sweep.flushed_file.new" } else { "sweep.flushed_file.torn" });
+            v.push(("sweep-flushed-file".to_string(), ops));
+        }
+    }
+    // every cut offset of a 3-entry, 2-segment log (outside the last-write crash model)
+    let e = entry_size(pool, 1);
+    let step = if thorough { 1 } else { 1 };
+    let mut n = 0;
+    while n <= 2 * e {
+        let ops = vec![Op::O(2 * e + 1), Op::A(1), Op::A(1), Op::A(1), Op::A(1), Op::K(n), Op::O(2 * e + 1), Op::R, Op::N, Op::S, Op::A(0), Op::C, Op::O(2 * e + 1), Op::R];
+        report.bump("sweep.cut_anywhere");
+        v.push(("sweep-cut-anywhere".to_string(), ops));
+        n += step;
+    }
+    v
+}
+
+/// regression cases: the two defects that were repaired, and proof-derived corners
+fn corpus(pool: &Pool) -> Vec<Vec<Op>> {
+    let e = entry_size(pool, 1);
+    vec![
+        // append after a torn tail was lost at the next reopening and its number re-issued
+        vec![Op::O(1 << 20), Op::A(1), Op::A(1), Op::C, Op::K(e + 10), Op::O(1 << 20), Op::R, Op::A(1), Op::C, Op::O(1 << 20), Op::R, Op::N],
+        vec![Op::O(1 << 20), Op::A(1), Op::X(1, 10), Op::O(1 << 20), Op::N, Op::A(1), Op::C, Op::O(1 << 20), Op::R, Op::N, Op::S],
+        // empty active segment after the flushed segments were removed: numbering restarted at 1
+        vec![Op::O(2 * e), Op::A(1), Op::A(1), Op::X(1, 0), Op::O(2 * e), Op::N, Op::F(2), Op::C, Op::L, Op::O(2 * e), Op::T(3), Op::S, Op::C, Op::O(2 * e), Op::N, Op::A(1), Op::E(2), Op::R],
+        // same with the flushed file torn afterwards (mark reads 0; the log must still carry the numbering)
+        vec![Op::O(2 * e), Op::A(1), Op::A(1), Op::A(1), Op::T(3), Op::G(3, 5), Op::L, Op::O(2 * e), Op::N, Op::R, Op::A(1), Op::R],
+        // truncation: bound equal to / one above a segment's last number
+        vec![Op::O(e + 1), Op::A(1), Op::A(1), Op::A(1), Op::T(2), Op::S, Op::T(3), Op::S, Op::R, Op::C, Op::O(e + 1), Op::R, Op::N],
+        // truncation skips an empty older segment and goes on
+        vec![Op::O(e + 1), Op::A(1), Op::X(1, 0), Op::O(e + 1), Op::A(1), Op::A(1), Op::S, Op::T(3), Op::S, Op::R],
+        // complete but unacknowledged write: the number is not re-used
+        vec![Op::O(1 << 20), Op::A(0), Op::X(0, entry_size(pool, 0)), Op::O(1 << 20), Op::N, Op::R, Op::A(0), Op::R],
+        // zero-row batch, unlimited segment size, reopen twice in a row
+        vec![Op::O(0), Op::A(5), Op::A(2), Op::C, Op::O(0), Op::C, Op::O(0), Op::R, Op::N, Op::S, Op::L],
+        // every reader branch: magic, version, compression flag, stored crc, payload byte
+        vec![Op::O(1 << 20), Op::A(1), Op::A(1), Op::B(e + 2, 0x20), Op::O(1 << 20), Op::R, Op::N, Op::S],
+        vec![Op::O(1 << 20), Op::A(1), Op::A(1), Op::B(e + 4, 3), Op::O(1 << 20), Op::R, Op::N],
+        vec![Op::O(1 << 20), Op::A(1), Op::A(1), Op::B(5, 1), Op::O(1 << 20), Op::R, Op::N, Op::A(1), Op::R],
+        vec![Op::O(1 << 20), Op::A(1), Op::A(1), Op::B(e + 19, 0x80), Op::O(1 << 20), Op::R, Op::N],
+        vec![Op::O(1 << 20), Op::A(1), Op::A(1), Op::B(e + HEADER_LEN + 7, 0xff), Op::O(1 << 20), Op::R, Op::N, Op::A(1), Op::C, Op::O(1 << 20), Op::R],
+    ]
+}
+
+fn nontrivial(ops: &[Op]) -> bool {
+    // a crash (of any kind) followed by a reopening and an observation
+    let crash = ops.iter().position(|o| matches!(o, Op::X(..) | Op::G(..) | Op::C | Op::K(_) | Op::B(..)));
+    match crash {
+        Some(c) => {
+            let open = ops[c..].iter().position(|o| matches!(o, Op::O(_))).map(|p| p + c);
+            match open {
+                Some(o) => ops[o..].iter().any(|x| matches!(x, Op::R | Op::E(_) | Op::N | Op::A(_))),
+                None => false,
+            }
+        }
+        None => false,
+    }
+}
+
+fn main() {
+    let args = Args::parse();
+    csv_common::quiet_panics();
+    let rt = tokio::runtime::Builder::new_current_thread().enable_all().build().unwrap();
+    let pool = make_pool();
+    let mut model = Model::spawn(&args.model);
+    let mut report = Report::new("C05");
+
+    if let Some(path) = &args.replay {
+        let txt = std::fs::read_to_string(path).expect("replay file");
+        let v: serde_json::Value = serde_json::from_str(&txt).expect("replay json");
+        let c = &v["case"];
+        let line = c.as_str().or_else(|| c["case"].as_str()).or_else(|| v["shrunk"].as_str()).unwrap_or("").to_string();
+        let ops = decode_ops(&line);
+        let (impl_out, bad, disciplined) = run_impl(&rt, &pool, &ops);
+        let model_out = model.ask(&model_line(&pool, &ops));
+        println!("case : {}\nimpl : {}\nmodel: {}\ncaller discipline respected: {}\noracle failures: {:?}", encode_ops(&ops), impl_out, model_out, disciplined, bad);
+        std::process::exit(if bad.is_empty() && (model.is_null() || impl_out == model_out) { 0 } else { 1 });
+    }
+
+    let mut cases: Vec<(String, Vec<Op>)> = corpus(&pool).into_iter().map(|c| ("corpus".to_string(), c)).collect();
+    cases.extend(sweep_cases(&pool, &mut report, args.thorough()));
+    let n_random = if args.thorough() { 10_000 } else { 400 };
+    let mut rng = Rng::new(args.seed);
+    for _ in 0..n_random {
+        let mut r = rng.fork();
+        cases.push(("random".to_string(), gen_case(&mut r, &pool, &mut report)));
+    }
+    report.notes.push(format!(
+        "payload pool: {} real record batches, Arrow IPC payload sizes {:?}",
+        pool.payloads.len(), pool.payloads.iter().map(|p| p.len()).collect::<Vec<_>>()));
+
+    let mut discipline_checked = 0u64;
+    for (idx, (origin, ops)) in cases.iter().enumerate() {
+        let key = encode_ops(ops);
+        report.case(if nontrivial(ops) { Some(&key) } else { None });
+        report.bump(&format!("origin.{}", origin));
+        let (impl_out, bad, disciplined) = run_impl(&rt, &pool, ops);
+        report.impl_runs += 1;
+        report.bump(if disciplined { "history.caller_discipline_respected" } else { "history.outside_discipline_or_crash_model" });
+        let line = model_line(&pool, ops);
+        let (differs, model_out) = model.differs(&line, &impl_out);
+        if idx % 97 == 0 || origin == "corpus" {
+            report.sample(json!({"history": key, "impl": impl_out.split(';').skip(pool.payloads.len()).collect::<Vec<_>>().join(";"),
+                                 "model": model_out.split(';').skip(pool.payloads.len()).collect::<Vec<_>>().join(";")}));
+        }
+        if differs {
+            let shrunk = ddmin(ops, &mut |cand: &[Op]| {
+                let (i, _, _) = run_impl(&rt, &pool, cand);
+                model.differs(&model_line(&pool, cand), &i).0
+            });
+            let (si, sbad, _) = run_impl(&rt, &pool, &shrunk);
+            let sm = model.ask(&model_line(&pool, &shrunk));
+            report.disagreement(json!({
+                "correspondence": "WAL model (Model/Wal.v: open/append/rotate/truncate_before/read_entries/persist+load flushed seq, byte level) vs cardinalsin::ingester::WriteAheadLog in a temp directory",
+                "case": key, "impl": impl_out, "model": model_out,
+                "shrunk": encode_ops(&shrunk), "shrunk_impl": si, "shrunk_model": sm,
+                "oracle_failed": !sbad.is_empty() || !bad.is_empty(),
+            }));
+        }
+        if !bad.is_empty() {
+            let shrunk = ddmin(ops, &mut |cand: &[Op]| !run_impl(&rt, &pool, cand).1.is_empty());
+            let (_, sbad, _) = run_impl(&rt, &pool, &shrunk);
+            report.oracle_violation("", &sbad.join("; "), json!({"case": encode_ops(&shrunk), "original": key}));
+        }
+        // the classifier used by the oracle must not be more generous than op_ok of the model
+        if !model.is_null() && (origin == "corpus" || idx % 7 == 0) {
+            let mine = discipline_flags(&rt, &pool, ops);
+            let theirs = model.ask(&format!("?{}", line));
+            let theirs: Vec<&str> = theirs.split(';').skip(pool.payloads.len()).collect();
+            discipline_checked += 1;
+            for (i, (m, t)) in mine.iter().zip(theirs.iter()).enumerate() {
+                if *m == Some(true) && *t == "0" {
+                    report.disagreement(json!({
+                        "correspondence": "harness discipline classifier vs op_ok of the model",
+                        "case": key, "impl": format!("op {} classified as disciplined", i), "model": theirs.join(";"),
+                        "shrunk": key, "oracle_failed": false,
+                    }));
+                    break;
+                }
+            }
+        }
+    }
+    report.notes.push(format!("model calls: {}; discipline classifier cross-checked on {} histories", model.calls, discipline_checked));
+    report.write(&args.out);
 }
